@@ -201,7 +201,7 @@ func (m *UDPMuxDefault) GetConn(ufrag string, addr net.Addr) (net.PacketConn, er
 		muxedConn = m.createMuxedConn(ufrag)
 		go func() {
 			<-muxedConn.CloseChannel()
-			m.RemoveConnByUfrag(ufrag)
+			m.removeConn(ufrag, muxedConn)
 		}()
 
 		if isIPv6 {
@@ -247,6 +247,30 @@ func (m *UDPMuxDefault) RemoveConnByUfrag(ufrag string) {
 	for _, c := range removedConns {
 		addresses := c.getAddresses()
 		for _, addr := range addresses {
+			delete(m.addressMap, addr)
+		}
+	}
+}
+
+// removeConn unregisters conn and its address bindings once it has been
+// closed, but only as far as they still belong to it: a connection that was
+// removed from the mux earlier (RemoveConnByUfrag) and is closed late must not
+// take down the connection that has been created for the same ufrag since.
+func (m *UDPMuxDefault) removeConn(ufrag string, conn *udpMuxedConn) {
+	m.mu.Lock()
+	if c, ok := m.connsIPv4[ufrag]; ok && c == conn {
+		delete(m.connsIPv4, ufrag)
+	}
+	if c, ok := m.connsIPv6[ufrag]; ok && c == conn {
+		delete(m.connsIPv6, ufrag)
+	}
+	m.mu.Unlock()
+
+	m.addressMapMu.Lock()
+	defer m.addressMapMu.Unlock()
+
+	for _, addr := range conn.getAddresses() {
+		if c, ok := m.addressMap[addr]; ok && c == conn {
 			delete(m.addressMap, addr)
 		}
 	}
